@@ -441,6 +441,14 @@ class Stacker(Transformer):
             by_name = {str(name): name for name in X.data_vars}
             if all(name in by_name for name in self.var_dims):
                 X = X[[by_name[name] for name in self.var_dims]]
+                # ... and each variable's dimensions are stacked in the order in
+                # which the data stores them: bring them into the fitted order, too
+                X = X.map(
+                    lambda v: v.transpose(
+                        *[d for d in self.var_dims[str(v.name)] if d in v.dims], ...
+                    ),
+                    keep_attrs=True,
+                )
 
         # Stack data
         sample_dims = self.dims_mapping[self.sample_name]
